@@ -129,8 +129,15 @@ def run(tier):
         from . import C13
         R.under_contract(C13.check_reset(reg, src, PID))
         R.under_contract(callbacks_in_integrate(reg, src, 2))
+        # the sub-steps that land on a terminal event: the recursive integrate() is made without the caller's callbacks (pre-condition of
+        # the contract it is replaced by), so callbacks run once per iteration of the caller's loop also when an event terminates the run
+        from . import integrate_events as IE
+        reg.fail_fast = (3, 25)          # no obligation of this check is expected to fail: stop after the first few that do
+        IE.verify_integrate_events(src, reg, PID + "/" + IE.config_label(1, (True,), 1, 1), n=1, terminals=(True,), direction=1, callbacks=1)
     except Unsupported as e:
         reg.undecided(PID + "/executor/unsupported", "unsupported", "executor", str(e))
+    except solver.FailFast as e:
+        R.notes.append(str(e))
     nat = None
     try:
         nat = common.run_native("monitor/native_c20.py", dict(tier=tier), timeout=1200)
